@@ -411,15 +411,14 @@ def seller (m : Minter) : Addr := m.paymentAddress.getD m.admin
 /-- the bank messages of `_execute_mint`: `distribute_mint_fees(fee, false, Some(dev))` when the fee is non-zero (the
 developer address is validated only then), the seller payout when non-zero; `checked_sub` fails when the fee exceeds the price -/
 def mintMsgs (p : Params) (m : Minter) (isAdmin : Bool) (price : Coin) : Except Err (List Msg) :=
-  let fee := networkFee p isAdmin price
-  match (if fee = 0 then Except.ok [] else
-           match p.dev with
-           | none => .error .invalid
-           | some d => .ok (Sg1.distributeMintFees ⟨price.denom, fee⟩ false (some d))) with
-  | .error e => .error e
-  | .ok feeMs =>
-    if price.amount < fee then .error .other
-    else .ok (feeMs ++ (if price.amount - fee = 0 then [] else [Msg.send (seller m) ⟨price.denom, price.amount - fee⟩]))
+  -- `addr_validate(dev_fee_address)` is only reached when the fee is non-zero
+  if networkFee p isAdmin price ≠ 0 ∧ p.dev.isNone then .error .invalid
+  else if price.amount < networkFee p isAdmin price then .error .other
+  else
+    .ok ((if networkFee p isAdmin price = 0 then []
+          else Sg1.distributeMintFees ⟨price.denom, networkFee p isAdmin price⟩ false (some (p.dev.getD LAUNCHPAD_DAO))) ++
+         (if price.amount - networkFee p isAdmin price = 0 then []
+          else [Msg.send (seller m) ⟨price.denom, price.amount - networkFee p isAdmin price⟩]))
 
 def bookCount (m : Minter) (sender : Addr) (g : MintKind) : Minter :=
   match g with
